@@ -133,4 +133,14 @@ PACKAGE_SCENARIOS: list = [
         },
         [[], ['-nc'], ['--docstyle', 'numpydoc']],
     ),
+    (
+        'type:classes-named-like-collections',
+        {
+            'pk/__init__.py': '',
+            'pk/shadows.py': "class Mapping:\n    pass\n\n\nclass Sequence:\n    pass\n\n\nclass Collection:\n    pass\n\n\nclass List:\n    pass\n\n\nclass Set:\n    pass\n\n\nclass Dict:\n    pass\n\n\nclass Tuple:\n    pass\n\n\nclass Optional:\n    pass\n\n\nclass Callable:\n    pass\n\n\nclass Literal:\n    pass\n\n\nclass Union:\n    pass\n\n\nclass Any:\n    pass\n\n\nclass Final:\n    pass\n\n\nclass Type:\n    pass\n\n\ndef uses(a: Mapping, b: Sequence, c: Collection, d: List, e: Set, f: Dict, g: Tuple, h: Optional, i: Callable, j: Literal, k: Union, l: Any, m: Final, n: Type) -> Mapping: ...\n\n\nclass Holder:\n    a: Mapping\n    b: Sequence = Sequence()\n    c: list[Mapping] = []\n\n    def __init__(self, d: Dict, e: Set = Set()) -> None:\n        self.d = d\n        self.e: Set = e\n",
+            'pk/lower.py': "class dict:\n    pass\n\n\nclass list:\n    pass\n\n\nclass set:\n    pass\n\n\nclass tuple:\n    pass\n\n\nclass type:\n    pass\n\n\ndef uses(a: dict, b: list, c: set, d: tuple, e: type) -> dict: ...\n",
+            'pk/users.py': "from pk.shadows import Mapping, Sequence, List\nfrom pk import lower\n\n\ndef far(a: Mapping, b: Sequence, c: List, d: lower.dict, e: 'lower.list' = None) -> lower.set: ...\n",
+        },
+        [[], ['-nc'], ['--docstyle', 'numpydoc']],
+    ),
 ]
